@@ -264,6 +264,8 @@ impl MemoryBudget {
             let current_pool_used = pool_counter.load(Ordering::Acquire);
             let current_total_used = self.total_used();
             let total_limit = self.total_limit();
+            #[cfg(kahflane_turdb_verif)]
+            crate::verif_hooks::sched_point(101);
 
             let new_pool_used = current_pool_used + bytes;
             let new_total_used = current_total_used + bytes;
@@ -289,6 +291,8 @@ impl MemoryBudget {
                 }
             }
 
+            #[cfg(kahflane_turdb_verif)]
+            crate::verif_hooks::sched_point(102);
             match pool_counter.compare_exchange_weak(
                 current_pool_used,
                 new_pool_used,
@@ -311,6 +315,8 @@ impl MemoryBudget {
         loop {
             let current = pool_counter.load(Ordering::Acquire);
             let new_value = current.saturating_sub(bytes);
+            #[cfg(kahflane_turdb_verif)]
+            crate::verif_hooks::sched_point(112);
 
             match pool_counter.compare_exchange_weak(
                 current,
